@@ -25,7 +25,7 @@ EXTENDS RouteRef, TLC
 CONSTANTS Quick,       \* TRUE: reduced family for the quick tier (3 methods, deeper levels <= 1 handler)
           MaxSeg,      \* request = at most MaxSeg segments
           MaxDepth,    \* nesting depth explored by the dispatch machine
-          Mut          \* "none" | "search" | "reverse" | "icase" | "wrongparam" | "dollar" | "approot"  (seeded faults, self-test)
+          Mut          \* "none" | "search" | "reverse" | "icase" | "wrongparam" | "dollar" | "approot" | "lastwins"  (seeded faults, self-test)
                        \*   "dollar": the internal end anchor is "$" (also matches before a final newline) instead of "\z";
                        \*   only the capture-less regex_match overload is affected (the other one re-checks the span)
 
@@ -315,6 +315,47 @@ InitPool ==
           LET selP == IF mp.sel = "path" THEN mp.path ELSE mp.script
           IN mp.grp <= (IF Unset(selP) THEN 0 ELSE NGroups(selP.els)) /\ mcase = [mp |-> mp, h |-> h, s |-> sc, p |-> pa]
 
+\* the two lists of the pool: get_application_specific_pool scans the pool mounts and returns at the first
+\* match; otherwise it walks the legacy list to its end (purging destroyed applications on the way) and keeps
+\* the FIRST match.  Seeded fault "lastwins": every later legacy match overwrites the result.
+PM1 == [sel |-> "path", host |-> Nil, script |-> Nil, path |-> P(<<L(sa), R>>), grp |-> 1]            \* /a<rest>      -> rest
+PM2 == [sel |-> "path", host |-> Nil, script |-> Nil, path |-> P(<<L(sa), L(s1), R>>), grp |-> 1]     \* /a/1<rest>    -> rest
+PM3 == [sel |-> "path", host |-> Nil, script |-> Nil, path |-> Nil, grp |-> 0]                       \* catch-all     -> whole path
+PM4 == [sel |-> "path", host |-> Nil, script |-> Nil, path |-> P(<<L(sa), R>>), grp |-> 0]            \* /a<rest>      -> whole path
+PMs == {PM1, PM2, PM3, PM4}
+RECURSIVE Lists(_, _)
+Lists(Sx, n) == IF n = 0 THEN {<<>>} ELSE LET Lp == Lists(Sx, n - 1) IN Lp \cup { <<x>> \o l : x \in Sx, l \in { y \in Lp : Len(y) = n - 1 } }
+PoolPaths == {<<>>, sa, sab, sa \o s1, sa \o s1 \o sa, sa \o sa}
+
+MechLookup(entries, gone, h, sc, pa) ==
+    LET RECURSIVE Scan(_, _, _)
+        Scan(i, kind, res) ==
+            IF i > Len(entries) THEN res
+            ELSE LET e == entries[i]
+                     r == MechMp(e.mp, h, sc, pa)
+                 IN IF e.kind # kind \/ e.id \in gone \/ ~r.ok THEN Scan(i + 1, kind, res)
+                    ELSE IF kind = "pool" THEN [id |-> e.id, url |-> r.sel]                           \* return at once
+                    ELSE IF res.id = 0 \/ Mut = "lastwins" THEN Scan(i + 1, kind, [id |-> e.id, url |-> r.sel])
+                    ELSE Scan(i + 1, kind, res)
+        first == Scan(1, "pool", NoMount)
+    IN IF first.id # 0 THEN first ELSE Scan(1, "legacy", NoMount)
+
+InitPools ==
+    /\ mode = "pools"
+    /\ meth = GETb /\ path = <<>> /\ depth = 0 /\ opts = <<>> /\ idx = 0 /\ out = "done" /\ hit = NoHit /\ taken = NoTaken
+    /\ \E pl \in Lists(PMs, 1) : \E ll \in Lists(PMs, 3) : \E pa \in PoolPaths : \E pfirst \in BOOLEAN :
+          LET ents == [i \in 1..(Len(pl) + Len(ll)) |->
+                         \* registration order: pool mount first or last - only the order inside each list matters
+                         IF pfirst THEN (IF i <= Len(pl) THEN [id |-> i, kind |-> "pool", mp |-> pl[i]]
+                                         ELSE [id |-> i, kind |-> "legacy", mp |-> ll[i - Len(pl)]])
+                         ELSE (IF i <= Len(ll) THEN [id |-> i, kind |-> "legacy", mp |-> ll[i]]
+                               ELSE [id |-> i, kind |-> "pool", mp |-> pl[i - Len(ll)]])]
+          IN \E gone \in SUBSET (1..Len(ents)) : mcase = [ents |-> ents, gone |-> gone, h |-> hB, s |-> <<>>, p |-> pa]
+
+PoolFirst ==
+    mode = "pools" =>
+        MechLookup(mcase.ents, mcase.gone, mcase.h, mcase.s, mcase.p) = PoolLookup(mcase.ents, mcase.gone, mcase.h, mcase.s, mcase.p)
+
 PoolWhole ==
     mode = "pool" =>
         LET c == mcase
@@ -323,7 +364,7 @@ PoolWhole ==
            /\ r.ok => r.sel = MpSelected(c.mp, c.s, c.p)
 
 \* ------------------------------------------------------------ specification and properties
-Init == (InitRoute /\ mcase = [cfg |-> <<>>]) \/ InitMap \/ InitPool
+Init == (InitRoute /\ mcase = [cfg |-> <<>>]) \/ InitMap \/ InitPool \/ InitPools
 Next == Try /\ UNCHANGED mcase
 Spec == Init /\ [][Next]_allvars
 
